@@ -57,7 +57,23 @@ def main():
     with ThreadPoolExecutor(max_workers=a.jobs) as ex:
         for sid in ids:
             meta = json.load(open(os.path.join(VERIF, "seeded", sid, "meta.json")))
-            props = [meta["property"]] if a.props == "own" else (ALL if a.props == "all" else a.props.split(","))
+            if a.props == "own":
+                props = [meta["property"]]
+            elif a.props == "all":
+                props = ALL
+            elif a.props == "related":
+                # every check that exercises a file the patch touches (own check excluded: already run)
+                diff = open(os.path.join(VERIF, "seeded", sid, "patch.diff")).read()
+                rel = set()
+                if "socketwrapper.py" in diff:
+                    rel |= {"C11", "C12", "C01", "C02", "C04", "C13"}
+                if "rtcmreader.py" in diff:
+                    rel |= {"C01", "C02", "C04", "C05", "C17", "C11", "C13"}
+                if "rtcmmessage.py" in diff or "rtcmhelpers.py" in diff or "rtcmtypes" in diff or "rtcmtables" in diff:
+                    rel |= {"C13", "C04", "C02", "C17", "C05"}
+                props = sorted(rel - {meta["property"]})
+            else:
+                props = a.props.split(",")
             jobs.append(ex.submit(one, sid, props, a.tier, workers))
         for j in jobs:
             j.result()
